@@ -39,6 +39,22 @@ def impl_main(mode, fin, fout):
                     v.append("F1: parse() raises TypeError when one ModelAlias with a Define'd parameter is used in several decay lines")
                 else:
                     v.append("tables differ from those of the textually expanded file")
+            elif isinstance(res2, list):
+                # words that are not defined names stay verbatim: in the expanded file no word parameter is a defined name
+                # (nor its negation), so every word written must be reported as written
+                want = [[t, [[k2, t2] for l in st[2] for k2, t2 in (l.get("params") or []) if k2 == "word"]]
+                        for st in c.get("expanded_stmts", []) if st[0] == "Decay" for t in [st[1]]]
+                got = {}
+                for m, lines in res2:
+                    got.setdefault(m, [x for l in lines for x in (l[3] if isinstance(l[3], list) else []) if isinstance(x, str)])
+                seen = set()
+                for m, words in want:
+                    if m in seen:
+                        continue
+                    seen.add(m)
+                    if m in got and [w for _, w in words] != got[m]:
+                        v.append("a word that is not a defined name is not reported verbatim")
+                        break
             out.append(v)
         else:
             out.append(res)
@@ -111,7 +127,8 @@ def gen_cases(rng, tier):
                     prm.append(["num", rng.choice(decgen.NUMFORMS)])
                 elif r < 0.8 and dnames:
                     nme = rng.choice(dnames + ["undefd"])
-                    prm.append(["word", ("-" if rng.random() < 0.3 else "") + nme])
+                    # "-NAME" is the negated value; "+NAME" is just a word (it is not a defined name)
+                    prm.append(["word", ("-" if rng.random() < 0.3 else ("+" if rng.random() < 0.15 else "")) + nme])
                 else:
                     prm.append(["word", rng.choice(["file.dat", "yes", "-foo", "w1"])])
             return prm or None
@@ -147,7 +164,7 @@ def gen_cases(rng, tier):
         stmts = pre + blocks + extra
         rng.shuffle(stmts)
         ex = expand_src(stmts)
-        cases.append({"stmts": stmts, "text": decgen.render(stmts), "expanded_text": decgen.render(ex)})
+        cases.append({"stmts": stmts, "text": decgen.render(stmts), "expanded_text": decgen.render(ex), "expanded_stmts": ex})
     return cases
 
 
